@@ -1,6 +1,6 @@
 From Coq Require Import ZArith List Bool Reals Lra.
 From Flocq Require Import Core BinarySingleNaN.
-Require Import GV.FloatBase GV.FloatLemmas GV.AngleM GV.AngleProofs GV.GeonumM GV.GeonumProofs GV.TraitsM GV.NewProofs GV.CtorProofs GV.ClosureProofs GV.PiBounds GV.TrigProofs GV.DotValue GV.DistValue GV.DirProofs GV.SymProofs GV.SwapProofs.
+Require Import GV.FloatBase GV.FloatLemmas GV.AngleM GV.AngleProofs GV.GeonumM GV.GeonumProofs GV.TraitsM GV.NewProofs GV.CtorProofs GV.ClosureProofs GV.PiBounds GV.TrigProofs GV.DotValue GV.DistValue GV.DirProofs GV.SymProofs GV.SwapProofs GV.CommProofs.
 Open Scope R_scope.
 Require Import GV.Properties.C10.
 Check C10_wedge : forall (L : libm) a b,
@@ -45,3 +45,11 @@ Check C10_swap_orientation : forall (L : libm) (u : R) a b, sin_acc L u ->
   u + 10001 / 100000000000000 < Rabs (sin (dir (ang b) - dir (ang a))) ->
   steps_to (ang (wedge L a b)) (ang (wedge L b a)) 2 \/ steps_to (ang (wedge L b a)) (ang (wedge L a b)) 2.
 Print Assumptions C10_swap_orientation.
+Check C10_lagrange : forall (L : libm) (u : R) a b, cos_acc L u -> sin_acc L u -> u <= / 1000 ->
+  canonp (rem (ang a)) -> canonp (rem (ang b)) -> (0 <= blade (ang a))%Z -> (0 <= blade (ang b))%Z ->
+  fin (dot_value L a b) -> fin (mag (wedge L a b)) ->
+  let P := R_ (mag a) * R_ (mag b) in
+  let e := Rabs P * (u + 10002 / 100000000000000) + bpow radix2 (-1073) in
+  Rabs (R_ (dot_value L a b) * R_ (dot_value L a b) + R_ (mag (wedge L a b)) * R_ (mag (wedge L a b)) - P * P)
+    <= 2 * e * (2 * Rabs P + e).
+Print Assumptions C10_lagrange.
